@@ -6,22 +6,22 @@ From OV Require Import Base.Num Base.NumR Base.NumZ Base.Py Model.SchedState Gen
 
 (* construction (last_epoch = -1) leaves the scheduled value unchanged, k = 0 *)
 Theorem C17_exponential_construct_noop {T} {N : Num T} (s0 : ss T) v g :
-  exists s1, noise_exp_init s0 v g (-1) = Ok (s1, tt) /\ f_last_epoch s1 = 0%Z /\ f_oval s1 = v /\ f_gamma s1 = g.
+  exists s1, noise_exp_init s0 v g (-1) = SOk s1 tt /\ f_last_epoch s1 = 0%Z /\ f_oval s1 = v /\ f_gamma s1 = g.
 Proof. exact (noise_exp_ctor s0 v g). Qed.
 Theorem C17_step_construct_noop {T} {N : Num T} (s0 : ss T) v sz g :
-  exists s1, noise_stepc_init s0 v sz g (-1) = Ok (s1, tt) /\ f_last_epoch s1 = 0%Z /\ f_oval s1 = v /\ f_gamma s1 = g /\ f_step_size s1 = sz.
+  exists s1, noise_stepc_init s0 v sz g (-1) = SOk s1 tt /\ f_last_epoch s1 = 0%Z /\ f_oval s1 = v /\ f_gamma s1 = g /\ f_step_size s1 = sz.
 Proof. exact (noise_step_ctor s0 v sz g). Qed.
 Theorem C17_lambda_construct {T} {N : Num T} (s0 : ss T) v f :
-  exists s1, noise_lambda_init s0 v f (-1) = Ok (s1, tt) /\ f_last_epoch s1 = 0%Z /\ f_oval s1 = nmul v (f 0%Z) /\ f_base s1 = v /\ f_lam s1 = f.
+  exists s1, noise_lambda_init s0 v f (-1) = SOk s1 tt /\ f_last_epoch s1 = 0%Z /\ f_oval s1 = nmul v (f 0%Z) /\ f_base s1 = v /\ f_lam s1 = f.
 Proof. exact (noise_lambda_ctor s0 v f). Qed.
 Theorem C17_clip_exponential_construct_noop {T} {N : Num T} (s0 : ss T) v g :
-  exists s1, clip_exp_init s0 v g (-1) = Ok (s1, tt) /\ f_last_epoch s1 = 0%Z /\ f_oval s1 = v /\ f_gamma s1 = g.
+  exists s1, clip_exp_init s0 v g (-1) = SOk s1 tt /\ f_last_epoch s1 = 0%Z /\ f_oval s1 = v /\ f_gamma s1 = g.
 Proof. exact (clip_exp_ctor s0 v g). Qed.
 Theorem C17_clip_step_construct_noop {T} {N : Num T} (s0 : ss T) v sz g :
-  exists s1, clip_stepc_init s0 v sz g (-1) = Ok (s1, tt) /\ f_last_epoch s1 = 0%Z /\ f_oval s1 = v /\ f_gamma s1 = g /\ f_step_size s1 = sz.
+  exists s1, clip_stepc_init s0 v sz g (-1) = SOk s1 tt /\ f_last_epoch s1 = 0%Z /\ f_oval s1 = v /\ f_gamma s1 = g /\ f_step_size s1 = sz.
 Proof. exact (clip_step_ctor s0 v sz g). Qed.
 Theorem C17_clip_lambda_construct {T} {N : Num T} (s0 : ss T) v f :
-  exists s1, clip_lambda_init s0 v f (-1) = Ok (s1, tt) /\ f_last_epoch s1 = 0%Z /\ f_oval s1 = nmul v (f 0%Z) /\ f_base s1 = v /\ f_lam s1 = f.
+  exists s1, clip_lambda_init s0 v f (-1) = SOk s1 tt /\ f_last_epoch s1 = 0%Z /\ f_oval s1 = nmul v (f 0%Z) /\ f_base s1 = v /\ f_lam s1 = f.
 Proof. exact (clip_lambda_ctor s0 v f). Qed.
 
 (* after k scheduler steps: every k, every initial value, gamma, step size, lambda; any Num instance
